@@ -4,8 +4,9 @@
    Model: Cli/Rates.v (bytes of the cache file; every split_at / slice of
    cli/src/exchange_rates.rs an explicit panic site).  The oracle
    [o : list N -> fcl] stands for str::parse::<f64> followed by is_normal.
-   [fixed = false] is the scanner as it is today, [fixed = true] the scanner
-   with the candidate repair (split_at_checked(3)). *)
+   [fixed = true] is the EU scanner as it stands (split_at_checked(3), /repo
+   commit 348454e); [fixed = false] the scanner before that repair, kept to
+   document the defect. *)
 From FendV Require Import Base.Prelude Cli.Rates Cli.RatesProofs Cli.RatesEU Cli.RatesUN.
 Open Scope N_scope.
 
@@ -23,43 +24,42 @@ Theorem C20_utf8_valid_wf : forall bs, utf8_valid bs = true -> wf_cont true bs =
 Proof. exact utf8_valid_wf_cont. Qed.
 Print Assumptions C20_utf8_valid_wf.
 
-(* EU scanner, full-strength statement
-     forall o bs k, parse_eu o false bs <> RPanic k
-   is FALSE for the code as it stands: *)
-Theorem C20_eu_no_panic_refuted :
+(* EU scanner (the code as it stands, fixed = true: split_at_checked(3)): it
+   never panics, on any byte string, for any float oracle. *)
+Theorem C20_eu_no_panic : forall o bs k, parse_eu o true bs <> RPanic k.
+Proof. exact eu_fixed_no_panic. Qed.
+Print Assumptions C20_eu_no_panic.
+
+(* Documentation of the defect repaired by /repo commit 348454e.  The scanner
+   as it was (fixed = false: split_at(3)) violated the statement above: *)
+Theorem C20_eu_unrepaired_no_panic_refuted :
   exists bs, ~ (forall (o : list N -> fcl) k, parse_eu o false bs <> RPanic k).
 Proof. exact eu_no_panic_refuted_ex. Qed.
-Print Assumptions C20_eu_no_panic_refuted.
+Print Assumptions C20_eu_unrepaired_no_panic_refuted.
 
 (* ... with this witness (a cache cut inside a currency code) ... *)
-Theorem C20_eu_witness : forall o, parse_eu o false (B"<Cube currency='U") = RPanic 1.
+Theorem C20_eu_unrepaired_witness : forall o, parse_eu o false (B"<Cube currency='U") = RPanic 1.
 Proof. exact eu_no_panic_refuted. Qed.
-Print Assumptions C20_eu_witness.
+Print Assumptions C20_eu_unrepaired_witness.
 
-(* ... and it holds outside the classified inputs: the only reachable panic
-   is split_at(3) on a line `<Cube currency='` followed by fewer than three
-   bytes or by a multi-byte character straddling offset 3. *)
-Theorem C20_eu_no_panic_except_known : forall o bs,
+(* ... and only on the classified inputs: a line `<Cube currency='` followed
+   by fewer than three bytes or by a multi-byte character straddling offset 3. *)
+Theorem C20_eu_unrepaired_no_panic_except_known : forall o bs,
   known_C20_eu_split_at bs = false -> forall k, parse_eu o false bs <> RPanic k.
 Proof. exact eu_no_panic_except_known. Qed.
-Print Assumptions C20_eu_no_panic_except_known.
+Print Assumptions C20_eu_unrepaired_no_panic_except_known.
 
-(* The repaired scanner never panics, on any byte string, ... *)
-Theorem C20_eu_repaired_no_panic : forall o bs k, parse_eu o true bs <> RPanic k.
-Proof. exact eu_fixed_no_panic. Qed.
-Print Assumptions C20_eu_repaired_no_panic.
-
-(* ... changes nothing where today's scanner does not panic, ... *)
-Theorem C20_eu_repaired_agrees : forall o bs,
+(* The repair changed nothing where the old scanner did not panic, ... *)
+Theorem C20_eu_repair_conservative : forall o bs,
   (forall k, parse_eu o false bs <> RPanic k) -> parse_eu o true bs = parse_eu o false bs.
 Proof. exact eu_fixed_agrees. Qed.
-Print Assumptions C20_eu_repaired_agrees.
+Print Assumptions C20_eu_repair_conservative.
 
-(* ... and turns every panic into the ordinary error. *)
-Theorem C20_eu_repaired_on_known : forall o bs k,
+(* ... and turned every panic into the ordinary error. *)
+Theorem C20_eu_repair_on_known : forall o bs k,
   parse_eu o false bs = RPanic k -> parse_eu o true bs = RErr MSG_FAIL.
 Proof. exact eu_fixed_on_known. Qed.
-Print Assumptions C20_eu_repaired_on_known.
+Print Assumptions C20_eu_repair_on_known.
 
 (* ---- rates are verbatim -------------------------------------------- *)
 
@@ -120,11 +120,11 @@ Print Assumptions C20_un_fuel_sufficient.
 
 (* ---- what a conversion sees ------------------------------------------ *)
 
-(* Whatever bytes the cache file holds: with the UN source, or with the EU
-   source once repaired, reading it never panics ... *)
-Theorem C20_cache_no_panic : forall o fixed src file now max_age k,
-  (fixed = true \/ src = SrcUN) -> cache_rates o fixed src file now max_age <> OPanic k.
-Proof. exact cache_no_panic. Qed.
+(* Whatever bytes the cache file holds, whichever source is configured:
+   reading it never panics ... *)
+Theorem C20_cache_no_panic : forall o src file now max_age k,
+  cache_rates o true src file now max_age <> OPanic k.
+Proof. exact cache_no_panic_repaired. Qed.
 Print Assumptions C20_cache_no_panic.
 
 (* ... and a rate handed to the core for a currency is a token standing
@@ -159,12 +159,12 @@ Definition ex_eu : list N :=
   ex_eu_line "SEK" "11.6620" ++ B"</Cube>".
 
 Example C20_eu_accepts_example :
-  exists rs, parse_eu ex_oracle false ex_eu = ROk rs /\ length rs = 11%nat /\
+  exists rs, parse_eu ex_oracle true ex_eu = ROk rs /\ length rs = 11%nat /\
              lookup (B"GBP") rs = Some (Some (B"0.85628")).
 Proof. eexists. vm_compute. repeat split. Qed.
 
 Example C20_eu_prefix_example :
-  exists rs, parse_eu ex_oracle false (firstn 367 ex_eu) = ROk rs /\ length rs = 10%nat.
+  exists rs, parse_eu ex_oracle true (firstn 367 ex_eu) = ROk rs /\ length rs = 10%nat.
 Proof. eexists. vm_compute. split; reflexivity. Qed.
 
 Example C20_eu_known_false_example : known_C20_eu_split_at ex_eu = false.
